@@ -86,7 +86,7 @@ func (w *World) verifyFunc(fn *ssa.Function, c *FuncContract) (x *Exec, err erro
 		if cl.Kind != "requires" {
 			continue
 		}
-		t, err := x.evalBool(env, cl.Expr)
+		t, err := x.evalBool(env.assuming(), cl.Expr)
 		if err != nil {
 			return x, fmt.Errorf("%s: requires: %v", x.curFunc, err)
 		}
@@ -120,7 +120,7 @@ func (w *World) verifyFunc(fn *ssa.Function, c *FuncContract) (x *Exec, err erro
 			}
 			parts := conjuncts(cl.Expr)
 			for pi, pe := range parts {
-				t, err := x.evalBool(env, pe)
+				t, err := x.evalBool(env.proving(), pe)
 				if err != nil {
 					return x, fmt.Errorf("%s: ensures: %v in %q", x.curFunc, err, cl.Text)
 				}
@@ -269,7 +269,7 @@ func solveOne(i int, o *Obligation, cfg RunConfig) {
 	q = "; obligation: " + o.Name + "\n; " + strings.ReplaceAll(o.Desc, "\n", " ") + "\n" + q
 	os.WriteFile(file, []byte(q), 0o644)
 	res, _ := raceSolvers(file, cfg.Timeout, cfg.Solvers)
-	if res.Verdict != "unsat" && res.Verdict != "sat" && !o.Cover {
+	if res.Verdict != "unsat" && res.Verdict != "sat" && !o.Cover && !o.NoRetry {
 		// one retry with a much longer budget: a loaded machine must not turn
 		// a slow proof into an alarm
 		r2, _ := raceSolvers(file, cfg.Timeout*6, cfg.Solvers)
